@@ -38,11 +38,16 @@ def header(node):
 def make_hook(specs):
     def on_loop(I, node, ordinal, it, st):
         spec = specs.get(ordinal)
-        if spec is None:
-            return None
-        if header(node) != spec.fingerprint:
-            raise Unsupported("loop %d header %r does not match the invariant's fingerprint %r"
-                              % (ordinal, header(node), spec.fingerprint))
+        if spec is None or header(node) != spec.fingerprint:
+            # the loop moved (statements reordered): the invariant follows its loop by the header text, if that is unambiguous
+            same = [sp for sp in specs.values() if sp.fingerprint == header(node)]
+            if len(same) == 1:
+                spec = same[0]
+            elif spec is None:
+                return None
+            else:
+                raise Unsupported("loop %d header %r does not match the invariant's fingerprint %r"
+                                  % (ordinal, header(node), spec.fingerprint))
         return run(I, node, ordinal, it, st, spec)
     return on_loop
 
